@@ -161,6 +161,163 @@ func c28GetoptsSeq(r *Rand) string {
 	return sb.String()
 }
 
+// (1b) array sequences: multi-step programs on ONE variable that mix every array-writing builtin
+// and assignment form with every keyed reader, so that a writer leaving List and Indexes of the
+// variable inconsistent is hit by the next reader.  Input for read/mapfile comes from here-strings,
+// here-documents and the scratch file, with varying field / line counts.
+func c28ArraySeq(r *Rand) string {
+	v := "a"
+	words := func(n int) string {
+		ws := make([]string, n)
+		for i := range ws {
+			ws[i] = r.Pick([]string{"p", "q", "r", "s", "x y", "", "1", "-n", "*", "é"})
+			if strings.ContainsAny(ws[i], " *") || ws[i] == "" {
+				ws[i] = sq(ws[i])
+			}
+		}
+		return strings.Join(ws, " ")
+	}
+	plain := func(n int, sep string) string { // unquoted input text for read / mapfile
+		ws := make([]string, n)
+		for i := range ws {
+			ws[i] = r.Pick([]string{"p", "q", "r", "s", "t", "u", "1", "2"})
+		}
+		return strings.Join(ws, sep)
+	}
+	key := func() string {
+		return r.Pick([]string{"0", "1", "2", "3", "4", "5", "7", "9", "10", "-1", "-2", "-9", "1+1", "i", "${#" + v + "[@]}", "99"})
+	}
+	sparse := func() string {
+		n := 1 + r.Intn(4)
+		k := r.Intn(3)
+		var ps []string
+		for i := 0; i < n; i++ {
+			ps = append(ps, fmt.Sprintf("[%d]=%s", k, r.Pick([]string{"x", "y", "z", "w"})))
+			k += 1 + r.Intn(4)
+		}
+		if r.Chance(20) {
+			ps = append(ps, "t") // positional element after a keyed one
+		}
+		return strings.Join(ps, " ")
+	}
+	ref := v
+	writer := func() string {
+		t := ref
+		switch r.Intn(30) {
+		case 0:
+			return t + "=(" + words(r.Intn(5)) + ")"
+		case 1, 2:
+			return t + "=(" + sparse() + ")"
+		case 3:
+			return t + "+=(" + words(1+r.Intn(3)) + ")"
+		case 4:
+			return t + "+=(" + sparse() + ")"
+		case 5:
+			return t + "[" + key() + "]=" + r.Pick([]string{"v", "''", "w"})
+		case 6:
+			return t + "[" + key() + "]+=z"
+		case 7, 8:
+			return "unset '" + t + "[" + key() + "]'"
+		case 9:
+			return "unset " + t
+		case 10:
+			return "declare -a " + t
+		case 11:
+			return "declare -a " + t + "=(" + r.Pick([]string{words(r.Intn(4)), sparse()}) + ")"
+		case 12, 13, 14:
+			return r.Pick([]string{"read -a ", "read -ra ", "IFS=: read -a ", "read -r -a "}) + t + " <<<" + sq(plain(r.Intn(6), r.Pick([]string{" ", " ", ":", "  "})))
+		case 15:
+			return "read -a " + t + " <<EOF\n" + plain(r.Intn(5), " ") + "\nEOF"
+		case 16:
+			return "read -a " + t + " <file"
+		case 17, 18, 19:
+			return r.Pick([]string{"mapfile -t ", "mapfile ", "readarray -t ", "readarray ", "mapfile -t -d : "}) + t + " <<<" + "$'" + plain(r.Intn(5), r.Pick([]string{"\\n", "\\n", ":"})) + "'"
+		case 20:
+			return "mapfile -t " + t + " <<EOF\n" + plain(r.Intn(4), "\n") + "\nEOF"
+		case 21:
+			return r.Pick([]string{"mapfile -t ", "readarray "}) + t + " <" + r.Pick([]string{"file", "/dev/null", "nofile"})
+		case 22:
+			return t + "=(\"${" + t + "[@]}\")"
+		case 23:
+			return t + "=(\"${" + t + "[@]:" + r.Pick([]string{"1", "0:1", " -1", "2:5"}) + "}\")"
+		case 24:
+			return t + "=" + r.Pick([]string{"str", "''", "5"})
+		case 25:
+			return ": ${" + t + "[" + key() + "]:=d}"
+		case 26:
+			return "echo " + plain(1+r.Intn(4), " ") + " | { read -a " + t + "; declare -p " + t + "; }"
+		case 27:
+			return "read -a " + t + " < <(echo " + plain(r.Intn(4), " ") + ")"
+		case 28:
+			return r.Pick([]string{"export ", "declare -x ", "declare -r ", "declare -i ", "declare +x "}) + t
+		default:
+			return "(( i = " + r.Pick([]string{"0", "1", "2", "5"}) + " ))"
+		}
+	}
+	reader := func() string {
+		t := ref
+		switch r.Intn(20) {
+		case 0, 1, 2:
+			return "echo \"${!" + t + "[@]}\""
+		case 3, 4:
+			return "echo \"[${" + t + "[" + key() + "]}]\""
+		case 5:
+			return "echo \"${" + t + "[@]:" + r.Pick([]string{"0", "1", "2", " -1", " -2", "5", "1:1", "0:2", "2:9", " -3:2"}) + "}\""
+		case 6:
+			return "echo \"${#" + t + "[@]} ${#" + t + "[" + key() + "]} ${#" + t + "}\""
+		case 7, 8, 9:
+			return "declare -p " + t
+		case 10:
+			return "[[ -v " + t + "[" + key() + "] ]]; echo $?"
+		case 11:
+			return "test -v '" + t + "[" + key() + "]'; echo $?"
+		case 12:
+			return "printf '%s,' \"${" + t + "[@]}\"; echo"
+		case 13:
+			return "echo \"${" + t + "[*]}\" \"${" + t + "[@]/p/P}\" \"${" + t + "[@]#q}\" \"${" + t + "[@]^^}\""
+		case 14:
+			return "for k in \"${!" + t + "[@]}\"; do echo \"$k=${" + t + "[k]}\"; done"
+		case 15:
+			return "echo ${" + t + "[@]@Q} ${" + t + "@a} \"${" + t + "[@]@A}\""
+		case 16:
+			return "set -- \"${" + t + "[@]}\"; echo $# \"${@: -1}\""
+		case 17:
+			return "( echo \"${!" + t + "[@]}\"; declare -p " + t + " )"
+		case 18:
+			return "echo \"$(declare -p " + t + ") ${" + t + "[-1]}\""
+		default:
+			return "echo \"${" + t + "}\" \"${" + t + "[0]}\" \"${!" + t + "[*]}\""
+		}
+	}
+	var sb strings.Builder
+	mode := r.Intn(10)
+	switch mode {
+	case 0: // through a nameref
+		sb.WriteString("declare -n ref=a\n")
+	case 1: // a local array in a function (closed below)
+		sb.WriteString("f() {\nlocal -a a" + r.Pick([]string{"", "=(1 2 3)", "=([3]=x)"}) + "\n")
+	}
+	// always start from an array that may be sparse
+	sb.WriteString(r.Pick([]string{"a=(" + sparse() + ")", "a=(x y z); unset 'a[1]'", "a=(" + words(1+r.Intn(4)) + ")", "a=([2]=x [5]=y)", "declare -a a", "a=(x y z w); unset 'a[0]' 'a[2]'"}) + "\n")
+	n := 3 + r.Intn(7)
+	for k := 0; k < n; k++ {
+		if mode == 0 {
+			ref = r.Pick([]string{"a", "ref", "ref"})
+		}
+		if k%2 == 0 || r.Chance(30) {
+			sb.WriteString(writer() + "\n")
+		}
+		sb.WriteString(reader() + "\n")
+		if r.Chance(40) {
+			sb.WriteString(reader() + "\n")
+		}
+	}
+	if mode == 1 {
+		sb.WriteString("}\nf; f\n")
+	}
+	return sb.String()
+}
+
 func c28BuiltinProgram(r *Rand) (script string, tags []string) {
 	name := r.Pick(c28Builtins)
 	if r.Chance(12) {
@@ -816,12 +973,12 @@ func c28Search(c *Ctx, base string, corpus []string) {
 			items = append(items, c28Item{req: l, witness: l, key: "corpus\x00" + l, tags: []string{"corpus-search"}, known: true})
 		}
 	}
-	nVec, nProg, nOpts := c.N*2/3, c.N, c.N/10
+	nVec, nProg, nOpts, nArr := c.N/2, c.N, c.N/10, c.N/3
 	if c.Thorough() {
 		nProg = c.N * 4
 	}
 	if c.N == 0 {
-		nVec, nProg, nOpts = 0, 0, 0
+		nVec, nProg, nOpts, nArr = 0, 0, 0, 0
 	}
 	langs := []string{"bash", "bash", "bash", "posix", "mksh", "zsh", "bats"}
 	stdins := []string{"n", "s", "s", "e"}
@@ -829,6 +986,9 @@ func c28Search(c *Ctx, base string, corpus []string) {
 	for i := 0; i < nVec; i++ {
 		script, tags := c28BuiltinProgram(r)
 		items = append(items, c28ProgItem("bash", r.Pick(stdins), script, paramsPool[r.Intn(len(paramsPool))], append(tags, "search:builtin-vector")...))
+	}
+	for i := 0; i < nArr; i++ {
+		items = append(items, c28ProgItem("bash", r.Pick(stdins), c28ArraySeq(r), nil, "search:array-sequence"))
 	}
 	for i := 0; i < nProg; i++ {
 		lang := r.Pick(langs)
@@ -900,6 +1060,9 @@ func c28Search(c *Ctx, base string, corpus []string) {
 		}
 		if (res.kind == "hang" || res.kind == "timeout") && len(slow) < 8 {
 			slow = append(slow, res.kind+": "+c28Describe(it.req))
+		}
+		if res.kind == "invariant" {
+			c.Fail(it.witness, "after Runner.Run the array representation invariant is broken (latent index-out-of-range panic in the next keyed access): "+res.msg+" — input: "+c28Describe(it.req))
 		}
 		if res.kind == "hang" && res.msg != "" {
 			c.Fail(it.witness, "worker problem: "+res.msg)
